@@ -20,7 +20,7 @@ THEOREMS = [
 ]
 
 RULE = ("histories: ladders of 2..8 real replicas (Ising: beta / J / Gamma / h / mixed ladders and ladders with repeated "
-        "neighbours, heat-bath, RVB on uniform-|J| ladders, h != 0; generic: beta ladders with loop updates / heat-bath) "
+        "neighbours, heat-bath, RVB on uniform-|J| ladders, opposite-sign twin edges + RVB + per-edge J ladders, h = 0 / h > 0 mixes, managers grown by hand, h != 0; generic: beta ladders with loop updates / heat-bath) "
         "advanced to equilibrium, then total time 4..28, swap frequency 1..5, sampling frequency 1..5 (non-divisors included): "
         "the real timesteps_sample and parallel_timesteps_sample on clones versus a manual interleaving of timesteps(t) and "
         "tempering_step() at the C17 cadence with the same container words (final ladder, returned samples and energies, "
